@@ -108,6 +108,16 @@ def gen(rng, tier):
         cr, sr = rng.choice(rots)
         dx, dy = Fr(rng.choice(["1000", "-37.5", "123456", "0.125"])), Fr(rng.choice(["-2000", "14.25", "999999", "0"]))
         rev = [b["id"] for b in s.bars if rng.random() < 0.5] or [s.bars[0]["id"]]
+        if g % 2 == 0:
+            # every other group for sure: a force with a component normal to the bar applied on a supported bar end,
+            # and that bar among the reversed ones (what goes straight into the support must not depend on which end it is)
+            ends = [(b, tt) for b in s.bars for nid, tt in ((b["n1"], Fr(0)), (b["n2"], Fr(1))) if any(s.nodes[nid][2])]
+            if ends:
+                b, tt = ends[(g // 2) % len(ends)]
+                if not any(l["kind"] == "c" and l["bar"] == b["id"] and l["t"] == tt and l["term"] != "mz" for l in s.loads):
+                    s.loads.append({"kind": "c", "term": "fy", "local": True, "bar": b["id"], "t": tt, "v": Fr(rng.choice([-600, 450]))})
+                if b["id"] not in rev:
+                    rev.append(b["id"])
         w = (g % 3 == 0)
         group = [("base", s, False, None), ("translated", translate(s, dx, dy), False, (str(dx), str(dy))),
                  ("rotated", rotate(s, cr, sr), False, (str(cr), str(sr))), ("mirrored", mirror_x(s), False, None),
